@@ -7,6 +7,8 @@ mod capture;
 mod monitors;
 mod monitors2;
 mod monitors3;
+mod macrogen;
+mod c19;
 mod extras;
 mod rt;
 mod props;
@@ -130,6 +132,25 @@ fn main() {
                 println!("{js}");
             } else {
                 std::fs::write(&out, js).expect("write part");
+            }
+            std::process::exit(code);
+        }
+        "c19" => {
+            let tier = get("tier", "quick");
+            let seed: u64 = get("seed", "1").parse().unwrap_or(1);
+            let rout = a.get("replays-out").cloned().unwrap_or_else(|| get("replays", "/verif/replays"));
+            let mut part = runner::Part { property: "C19".into(), tier: tier.clone(), seed, ..Default::default() };
+            let t0 = std::time::Instant::now();
+            let corpus = get("corpus", "/verif/target/macrogen/corpus");
+            let code = if let Some(f) = a.get("file") {
+                c19::replay(f, std::path::Path::new(&corpus), &get("repo", "/repo"), &get("lock", "/verif/harness/Cargo.lock"))
+            } else {
+                c19::run(seed, &tier, std::path::Path::new(&corpus), &get("repo", "/repo"), &get("lock", "/verif/harness/Cargo.lock"), &rout, &mut part)
+            };
+            part.wall_s = t0.elapsed().as_secs_f64();
+            let out = get("out", "");
+            if !out.is_empty() {
+                std::fs::write(&out, serde_json::to_string(&part).unwrap()).expect("write part");
             }
             std::process::exit(code);
         }
